@@ -62,6 +62,14 @@ def expectedClass : List (FnD × SDoc) → Out
   | [] => .ok
   | (f, s) :: rest => if Consistent f s ∧ expectedClass rest = .ok then .ok else .raised "PedanticDocstringException"
 
+/-- a class decorated with `pedantic_class`: every method is a `@pedantic` function — checked when its docstring documents
+    parameters; decoration succeeds iff every method to which checking applies is consistent.  (Whether a base class of the class
+    has been decorated before does not occur: the property speaks about the methods the decorated class defines.) -/
+def expectedClassPlain : List (FnD × SDoc) → Out
+  | [] => .ok
+  | (f, s) :: rest =>
+    if expected false f s = .ok ∧ expectedClassPlain rest = .ok then .ok else .raised "PedanticDocstringException"
+
 /-! ### the views the specification is applied to -/
 
 def DT.meaning : DT → Option Val
